@@ -26,6 +26,9 @@ JobList == CASE Jobs = 1 -> <<C("calc", "m1", "A", "-"), C("perf", "m1", "A", "-
              [] Jobs = 5 -> Handover("m4")
              [] Jobs \in 7..10 -> LET m == CASE Jobs = 7 -> "m2" [] Jobs = 8 -> "m1" [] Jobs = 9 -> "m3" [] OTHER -> "m4"
                                  IN <<C("gnext", m, "C", "h3"), C("gnext", m, "D", "h4"), C("gnext", m, "C", "h3"), C("gnext", m, "D", "h4")>>
+             \* 11: calls that differ only in a lazer DifficultyAdjust override (osu! circle size; catch circle size)
+             [] Jobs = 11 -> <<C("calc", "m1", "N", "-"), C("calc", "m1", "E", "-"), C("attrs", "m1", "N", "-"), C("attrs", "m1", "E", "-")>>
+             [] Jobs = 12 -> <<C("calc", "m3", "N", "-"), C("calc", "m3", "F", "-"), C("calccatch", "m1", "F", "-"), C("calccatch", "m1", "N", "-")>>
              [] OTHER -> <<C("calc", "m2", "C", "-"), C("calc", "m2", "D", "-"), C("strains", "m2", "C", "-"), C("perf", "m2", "D", "-")>>
 N == Len(JobList)
 Handles == {"h1", "h2", "h3", "h4", "h5", "h6"}
